@@ -213,6 +213,27 @@ def run(repo, rep, tier):
                        key=f"C01.R3@{fn}:{type(n).__name__}:{U(n)[:50]}")
         rep.ob("C01.R3", f, f"{fn}: {n_ops} arithmetic operations inspected, all exact up to one final conversion",
                not any(o.rule == "C01.R3" and not o.ok and fn in o.construct for o in rep.obs), "", key=f"C01.R3@{fn}:summary")
+    # a float must enter Decimal through its shortest repr, never directly (Decimal(float) is the exact binary expansion)
+    pfn = repo.func("cell.py", "_pack_decimal128")
+    pparam = pfn.args.args[0].arg
+    for c in [n for n in body_walk(pfn) if isinstance(n, ast.Call) and last_attr(n.func) == "Decimal" and n.args]:
+        a = c.args[0]
+        direct = isinstance(a, ast.Name) and a.id == pparam
+        if not direct:
+            continue
+        guarded = False
+        child = c
+        for p in _anc(c):
+            if isinstance(p, ast.IfExp) and U(p.test).replace(" ", "") == f"isinstance({pparam},float)" and child is p.orelse:
+                guarded = True
+            if isinstance(p, ast.If) and U(p.test).replace(" ", "") == f"isinstance({pparam},float)" and any(child is x or any(child is y for y in ast.walk(x)) for x in p.orelse):
+                guarded = True
+            if isinstance(p, ast.If) and U(p.test).replace(" ", "") in (f"notisinstance({pparam},float)", f"isinstance({pparam},int)") and any(child is x or any(child is y for y in ast.walk(x)) for x in p.body):
+                guarded = True
+            child = p
+        rep.ob("C01.R3", c, f"_pack_decimal128: `{U(c)}` is reached for non-float values only", guarded,
+               "" if guarded else "Decimal(float) is the exact binary expansion (1000000.1 -> 1000000.0999999999767...); truncating it to 17 digits stores a value one ulp low for some 15-digit floats",
+               key="C01.R3@_pack_decimal128:decimal-of-float")
     # the integer mantissa keeps every significant digit of the float (repr needs at most 17)
     pf = repo.func("cell.py", "_pack_decimal128")
     kk = None
@@ -256,6 +277,13 @@ def run(repo, rep, tier):
     rep.floor("C01.R2", 25)
     rep.floor("C01.R3", 5)
     rep.floor("C01.R4", 7)
+
+
+def _anc(n):
+    p = getattr(n, "_parent", None)
+    while p is not None:
+        yield p
+        p = getattr(p, "_parent", None)
 
 
 def _date_epoch_ok(enc) -> bool:
@@ -311,6 +339,7 @@ VARIANTS = [
     M("date-single-precision", "cell.py", 'value = pack("<d", float(date_delta.total_seconds()))', 'value = pack("<f", float(date_delta.total_seconds()))', "C01.R2"),
     M("revert-fix-unpack-float-pow", "cell.py", '    return float(f"{mantissa}E{exp}")', "    value = mantissa * 10**exp\n    return float(value)", "C01.R3"),
     M("revert-fix-pack-division", "cell.py", "        mantissa >>= 8", "        mantissa = int(mantissa / 256)", "C01.R3"),
+    M("decimal-of-float-direct", "cell.py", "dec = Decimal(repr(value)) if isinstance(value, float) else Decimal(value)", "dec = Decimal(value)", "C01.R3"),
     M("mantissa-16-digits", "cell.py", "exp = (dec.adjusted() if dec != 0 else 0) - 16", "exp = (dec.adjusted() if dec != 0 else 0) - MAX_SIGNIFICANT_DIGITS", "C01.R3"),
     M("duration-days", "cell.py", 'value = pack("<d", float(self.value.total_seconds()))', 'value = pack("<d", float(self.value.seconds))', "C01.R2"),
     M("bool-threshold", "cell.py", "cell = BoolCell(row, col, double > 0.0)", "cell = BoolCell(row, col, double > 1.0)", "C01.R2"),
